@@ -57,7 +57,7 @@ pub enum Given {
 pub ghost struct Stage { pub argv: Seq<Seq<u8>>, pub stdin: Given, pub stdout: Given, pub stderr: Given, pub detached: bool, pub reaped: bool }
 pub ghost struct BW {
     pub stages: Seq<Stage>,          // every process started so far, in order
-    pub closed: Set<int>,            // open files (by object) that the parent has closed
+    pub inheritable: Set<int>,       // pipe ends the library created with make_pipe() that are open in the parent and NOT close-on-exec
     pub waits: nat,                  // blocking waits so far
 }
 pub tracked struct World { pub ghost s: BW }
